@@ -1,7 +1,7 @@
 """C19 allocation failure: ownership on every exit, checked allocations, reported failures."""
 from ksirules.flow import path_lines, status_var
 from ksirules.model import AnalysisBroken
-from ksirules.ownership import absorbed_param_release, analyse, dangling_fields, is_release, unchecked_allocations
+from ksirules.ownership import absorbed_param_release, borrowed_into_owning_field, analyse, dangling_fields, is_release, unchecked_allocations
 from ksirules.status import dropped_errors
 
 TITLE = "a failed allocation yields an error, never a crash, leak or corruption"
@@ -53,6 +53,26 @@ def absorbed_obligations(prog, chk, rule, units=None):
     return n
 
 
+def borrow_obligations(prog, chk, rule, units=None):
+    """A value that is only borrowed (a field of another object, a borrowing getter's result) is not stored into a field that the
+    holder's destructor releases, unless a reference is taken."""
+    total = 0
+    for fn in sorted(prog.all_functions(), key=lambda f: (f.unit, f.line)):
+        if units is not None and fn.unit not in units:
+            continue
+        st = {}
+        hits = borrowed_into_owning_field(prog, fn, st)
+        total += st.get("stores", 0)
+        for (b, i, lk, src, why) in hits:
+            chk.ob(rule, "%s:%s" % (fn.name, lk), False,
+                   "%s = %s stores an object into a field that the holder's destructor releases, but %s and no reference is taken: the object has "
+                   "two owners and is released twice" % (lk, src, why), loc=fn.loc(fn.elem_line(b, i)), fn=fn)
+        if st.get("stores") and not hits:
+            chk.ob(rule, fn.name, True, "%d store(s) into owned fields: each value is fresh, a new reference, a parameter taken over, or moved out of its "
+                   "previous holder" % st["stores"], loc=fn.loc(), fn=fn)
+    return total
+
+
 def run(prog, chk):
     chk.explanation = (
         "(R4) for every function of the 40 units and every pointer local that receives an object from a producer (derived from the callee's "
@@ -88,6 +108,8 @@ def run(prog, chk):
 
     ownership_obligations(prog, chk, "C19.owner")
     absorbed_obligations(prog, chk, "C19.absorbed")
+    chk.rule("C19.borrow", "no borrowed object is stored into an owning field without taking a reference", floor=150)
+    borrow_obligations(prog, chk, "C19.borrow")
     chk.rule("C19.list", "list growth: capacity, array and length change together or, when the allocation fails, not at all", floor=7)
     list_growth_table(prog, chk, "C19.list")
 
